@@ -1,7 +1,7 @@
-(* Obligation C10/stays_in_range_forever.  Statement as printed by Coq from Inferno.C10.WorldProofs; proof by reference.
+(* Obligation C10/stays_in_range_forever.  Statement as printed by Coq from Inferno.C10.RangeProofs; proof by reference.
    This file contains nothing else, so the statement cannot be weakened quietly. *)
 From Coq Require Import List ZArith Bool Arith Reals Lra Lia Permutation.
-From Inferno Require Import Base.Num Base.NumR Gen.Bounding C10.Updater C10.KernelProofs C10.AccProofs C10.OrderProofs C10.WorldProofs C10.UpdateProofs C10.InterleaveProofs.
+From Inferno Require Import Base.Num Base.NumR Gen.Bounding C10.Updater C10.KernelAlgebra C10.KernelRange C10.AccProofs C10.OrderProofs C10.WorldProofs C10.RangeProofs.
 Import ListNotations.
 Open Scope R_scope.
 Theorem stays_in_range_forever : forall (target : Z) (mx mn cap : R) (ps : list (Z * tensorW)) (x : tensorW)
@@ -19,5 +19,5 @@ Theorem stays_in_range_forever : forall (target : Z) (mx mn cap : R) (ps : list 
   upd RN w = Some us ->
   lookup target us = Some a ->
   lookup target (params RN w) = Some y -> length y = length x /\ in_range mx mn y.
-Proof. exact (@Inferno.C10.WorldProofs.stays_in_range_forever). Qed.
+Proof. exact (@Inferno.C10.RangeProofs.stays_in_range_forever). Qed.
 Print Assumptions stays_in_range_forever.
